@@ -800,12 +800,25 @@ func dumpHeadFuncs(P *Program) {
 	}
 }
 
+// headFuncKeys: the unexported functions of the reference tree (by key).
+var headFuncKeys = map[string]bool{}
+
+// newHelper: an unexported function that the reference tree does not have (after renames are accounted for): code
+// that was moved out of a function the rules know, to be read as if it still stood at its call site.
+func newHelper(f *ssa.Function) bool {
+	if f == nil || f.Object() == nil || f.Object().Exported() || len(headFuncKeys) == 0 {
+		return false
+	}
+	return !headFuncKeys[FuncKey(f)]
+}
+
 func computeFuncAliases(all map[*ssa.Function]bool) {
 	funcAlias = map[*ssa.Function]string{}
 	head := map[string]string{}
 	for _, ln := range strings.Split(headFuncsTxt, "\n") {
 		if p := strings.SplitN(ln, "\t", 2); len(p) == 2 && !strings.HasPrefix(ln, "#") {
 			head[p[0]] = p[1]
+			headFuncKeys[p[0]] = true
 		}
 	}
 	if len(head) == 0 {
